@@ -191,7 +191,9 @@ def check_part(ctx, n, label):
     srcs = [gen_case(ctx.rng, i) for i in range(n)]
     # deterministic corpus: the shapes the theorems speak about
     srcs += ["{(1,)}", "(1,)", "[(1,), 2]", "'a' 'b'", "\"a\"", "'a'", "('a' \"b\",)", "[1, 2,]", "{1: 'x',}", "frozenset({(1,)})", "'it''s'", "b'a' b'b'",
-             "'''a\nb'''", "'a\\nb\\nc'", "[\n 1,\n 2,\n]", "{'a' 'b': 1}", "((1,),)", "'\\''", "\"'\"", "'\"' \"'\"", "''", "'' ''", "[''  '']", "b''", "1_0", "(  )", "{ }"]
+             "'''a\nb'''", "'a\\nb\\nc'", "[\n 1,\n 2,\n]", "{'a' 'b': 1}", "((1,),)", "'\\''", "\"'\"", "'\"' \"'\"", "''", "'' ''", "[''  '']", "b''", "1_0", "(  )", "{ }",
+             # F-08: the repr of a complex number is parenthesised and asttokens leaves the parentheses out of the node
+             "1+2j", "[(1+2j)]", "-1j"]
     chunks = [srcs[i:i + 40] for i in range(0, len(srcs), 40)]
     outs = [o for ch in pmap(run_chunk, chunks) for o in ch]
     terms, idx = [], []
@@ -214,8 +216,10 @@ def check_part(ctx, n, label):
             continue
         if a["norm"] or (a["leaf"] and not a["trailing"]):
             ctx.report(f"{label} oracle: the code {a['text']!r} that is written for the value of {s!r} is reported as `update` again when it is compared with the same value "
-                       f"(leaf comparison: {a['leaf']}, normalized comparison: {a['norm']})", {"kind": "tokens", "src": s})
-            continue
+                       f"(leaf comparison: {a['leaf']}, normalized comparison: {a['norm']})", {"kind": "tokens", "src": s},
+                       tag="F-08" if (a["text"].startswith("(") and a["text"].endswith(")") and "j" in a["text"]) else None)
+            if not (a["text"].startswith("(") and "j" in a["text"]):
+                continue
         terms.append(g_pair(g_toks(o["raw"]), g_toks(o["canon"]), g_toks(o["obs"]), g_bool(o["leaf"]), g_bool(o["norm"]), g_bool(o["supported"])))
         idx.append(i)
     nonp = nonprintable_ranges()
